@@ -126,7 +126,18 @@ RDF_FUNCS = ["pyjelly/integrations/rdflib/serialize.py:*", "pyjelly/integrations
       explanation="H-PIPE-RDF: rdflib Graph/Dataset -> real rdflib serializer plugin -> bytes -> real rdflib parser plugin; set equality of triples/quads")
 def c02(tier):
     us = pipe_units("rdf", "roundtrip", tier, integ="rdflib")
-    return us + [twin(us[0])]
+    eg = []
+    for u in us:
+        if u["params"]["phys"] == 3 and u["params"]["delimited"] and u["params"]["spine"] == 0:
+            v = dict(u, id=u["id"] + ":empty-graph", params=dict(u["params"], empty_graph="http://e/g"))
+            eg.append(v)
+    st = [u for u in stmt_units(tier) if u["params"].get("integ") == "rdflib"]
+    import importlib
+    m = importlib.import_module("vpkg.harness.stmt")
+    tables = {"name": dict(n=2, m=0), "prefix": dict(n=0, m=0, e=0), "datatype": dict(n=3, m=3)}
+    m.P = {"tables": tables}
+    st.append(U("stmt:rdflib:bnode|iri|tlit:d3.3", "stmt", "stmt", dict(kinds=["bnode", "iri", "tlit"], tables=tables, nchoices=m.count_choices(["bnode", "iri", "tlit"]), integ="rdflib", rep=None), timeout=600, no_sample=True))
+    return us + eg + st + [twin(us[0])]
 
 
 @prop("C03", functions=PIPE_FUNCS + RDF_FUNCS,
@@ -193,6 +204,9 @@ def conf_units(tier):
         for phys in (1, 2):
             out.append(U(f"conf:rdflib:graph_serialize:in{phys}:fl{fl}:K{K}", "conf", "conf", dict(integ="rdflib", entry="graph_serialize", phys=phys, K=K, flowsel=fl,
                          projection="triples-if-triplestream", setcmp=True), timeout=300))
+            if fl in (0, 2):
+                out.append(U(f"conf:rdflib:graph_serialize_stream_only:in{phys}:fl{fl}:K{K}", "conf", "conf", dict(integ="rdflib", entry="graph_serialize_stream_only", phys=phys, K=K, flowsel=fl,
+                             projection="triples-if-triplestream", setcmp=True), timeout=300))
     return out
 
 
@@ -265,7 +279,7 @@ def io_len(params):
 
 @prop("C09", functions=IO_FUNCS,
       bounds={"quick": {"schedule": "sched: first three raw reads limited to symbolic s1,s2,s3 each in 1..4 or unlimited; sched1: first read limited to any s1 >= 1; schedall: every read limited to one symbolic s >= 1 (all integers)",
-                        "streams": "3-statement delimited streams (frame_size 1, 2) and non-delimited, TRIPLES/QUADS/GRAPHS, both integrations", "seekable": "BytesIO, buffered file, gzip, BufferedReader(FileIO) with symbolic buffer size"},
+                        "streams": "3-statement delimited streams (frame_size 1, 2) and non-delimited, TRIPLES/QUADS/GRAPHS, both integrations", "seekable": "BytesIO, buffered file, gzip, BufferedReader(FileIO) with symbolic buffer size {1,2,3,8,64}, positioned at a symbolic offset 0..3 behind an already consumed preamble"},
               "thorough": {"streams": "4 statements, leading empty frames"}},
       outside="sources violating the RawIOBase contract; schedules whose 5th and later reads are short are covered only by the uniform-limit units",
       explanation="H-IO-SCHED: a non-seekable RawIOBase double whose reads are limited by symbolic integers; result must equal the parse of the same bytes from memory")
@@ -315,6 +329,14 @@ def c10(tier):
                 for le in ([False] if tier == "quick" else [False, True]):
                     n = stall_len(integ, phys, K, fs, le)
                     us.append(U(f"cut:{integ}:p{phys}:fs{fs}:le{int(le)}", "iosched", "cut", dict(integ=integ, phys=phys, K=K, fs=fs, lead_empty=le, len=n), timeout=600))
+    # the cut as a dropped connection (exception from read()) and as EOF on a source that delivers its first bytes one at a time
+    for integ in ("generic", "rdflib"):
+        for src in ("drop", "chunked"):
+            n = stall_len(integ, 2 if src == "drop" else 1, K, 1)
+            parts = 2
+            for q in range(parts):
+                lo, hi = q * (n + 1) // parts, (q + 1) * (n + 1) // parts - 1
+                us.append(U(f"cut:{integ}:{src}:{lo}-{hi}", "iosched", "cut", dict(integ=integ, phys=2 if src == "drop" else 1, K=K, fs=1, source=src, len=n, lo=lo, hi=hi), timeout=600))
     # an empty frame in the middle of the stream; frames >= 128 bytes (two-byte length prefixes)
     for integ in ("generic", "rdflib"):
         for phys in ((1, 2) if tier != "quick" or integ == "generic" else (1,)):
@@ -345,6 +367,8 @@ def c08(tier):
                 if c == 0:
                     continue
                 us.append(U(f"pair:{integ}:p{phys}:t{a}-{b}-{c}", "hint", "pair", dict(integ=integ, phys=phys, names=a, prefixes=b, datatypes=c, maxname=mx), timeout=300))
+    for phys in (1, 2):
+        us.append(U(f"pair:rdflib:p{phys}:stream-only", "hint", "pair", dict(integ="rdflib", phys=phys, names=8, prefixes=8, datatypes=8, maxname=4, rentry="graph_serialize_stream_only"), timeout=300))
     # detection must also be right when the header arrives in pieces (non-seekable source, short first reads)
     for delim, fs in ((True, 1), (False, 250)):
         base = dict(integ="generic", phys=1, K=3, fs=fs, delimited=delim)
@@ -482,6 +506,10 @@ def c14(tier):
                     fixes = [(1, 0)] if phys == 1 else []
                 for fx in fixes:
                     us.append(U(f"ns:{integ}:p{phys}:t{nm}-{pf}-{dt}:nb2:f{fx[0]}.{fx[1]}", "ns", "ns", dict(base, nb=2, fix1=list(fx)), timeout=600))
+    for integ in ("generic", "rdflib"):
+        us.append(U(f"ns_grouped:{integ}", "ns", "ns_grouped", dict(integ=integ), timeout=600))
+    for phys in (1, 2):
+        us.append(U(f"ns:generic:p{phys}:nb3", "ns", "ns", dict(integ="generic", phys=phys, names=8, prefixes=8, datatypes=8, entry="stream_frames_sink", pentry="flat", reser=True, setcmp=False, nb=3), timeout=600))
     return us + [twin(us[1]), twin(us[-1])]
 
 
@@ -509,6 +537,7 @@ def c20(tier):
       explanation="the writer raised, or both the reference decoder and pyjelly's parser return the input; fitting statements must never be refused")
 def c18(tier):
     us = []
+    us += [u for u in termbmc_units(tier, alphs=("dt",)) if u["params"]["integ"] == "generic" and not u["params"].get("three")]
     for phys in (1, 2, 3):
         for s_ in range(7):
             us.append(U(f"overcap:p{phys}:s{s_}", "overcap", "overcap", dict(phys=phys, s=s_, maxpf=3 if tier == "quick" else 5, fs=250 if s_ % 2 else 1,
@@ -544,6 +573,10 @@ def c15(tier):
     for phys, logical, delim in ((1, 0, False), (2, 0, False), (2, 4, True), (1, 3, True)):
         us.append(U(f"diff:p{phys}:lt{logical}:d{int(delim)}", "diff", "diff",
                     dict(phys=phys, spine=0, fixed=[1, 0], alph=alph, K=2, names=8, prefixes=4, datatypes=2, delimited=delim, entry="stream_frames", logical=logical), timeout=600))
+    # quads handed to the guessing entry points with a GRAPHS sub-type: both integrations must route them the same way
+    for logical in (3, 13):
+        us.append(U(f"diff:guess:lt{logical}", "diff", "diff",
+                    dict(phys=2, spine=0, fixed=[1, 0], alph=alph, K=2, names=8, prefixes=4, datatypes=2, delimited=True, entry="flat_file", logical=logical, project_triples=True), timeout=600))
     for phys in (1, 2, 3):
         for pf in (0, 4):
             us.append(U(f"diffref:p{phys}:pf{pf}", "diff", "diff_ref", dict(phys=phys, prefixes=pf), timeout=600))
@@ -621,7 +654,8 @@ def c07(tier):
 def c12(tier):
     us = []
     combos = [[["ser", "A"], ["ser", "B"]], [["ser", "A"], ["parse", "B"]], [["parse", "A"], ["parse", "B"]], [["ser", "A"], ["ser", "A"]],
-              [["sstream", "A"], ["sstream", "C"]], [["stream", "A"], ["stream", "B"]]]
+              [["sstream", "A"], ["sstream", "C"]], [["stream", "A"], ["stream", "B"]],
+              [["parse", "D"], ["parse", "E"]], [["dsflow", "B"], ["ser", "A"]], [["lstream", "A"], ["stream", "C"]]]
     for integ in ("generic", "rdflib"):
         for ci, ws in enumerate(combos):
             for hh in range(3):
